@@ -73,6 +73,16 @@ SUMMARY = {
  "C17-h": "streaming copy cut at the default payload limit + 1 instead of the per-request limit + 1",
  "C18-h": "init/error in the Restoring state builds the restore error from the raw header (sanitising skipped)",
  "C19-h": "kill() reports the ESRCH of its fallback signal: a Kill racing a natural exit whose output is still draining fails instead of succeeding",
+ "C05-i": "RegistrationService.Clear no longer re-arms cancelOnce (same line as C01-h, asked for under C05): the second stalled invocation on an instance is never answered",
+ "C06-i": "cached init error no longer dropped by Server.Clear but only on an error that never occurs: a later fault in a healthy generation is answered with the old init-error payload",
+ "C07-i": "a failed invocation is answered before its reset: every invocation arriving while the reset runs fails with AlreadyReserved",
+ "C09-i": "one shared deadline context for all SHUTDOWN subscribers, cancelled by the first one that exits: the others are killed at once",
+ "C11-i": "AwaitGateCondition waits once (if) instead of re-testing (for): a waiter woken by an arrival returns although a re-arm made the condition false again",
+ "C13-i": "register response built once and cached: the accountId feature of one registration leaks into every later one, metadata frozen at the first",
+ "C14-i": "Function.ResponseSizeTooLarge reply cached per limit: a second oversized response of another size is reported with the first one's size",
+ "C15-i": "AwaitGateCondition returns success when the count is met although the gate was cancelled: after an idle crash the next invocation 'succeeds' (start / runtime-done success for a dead runtime)",
+ "C16-i": "with an empty init handler the customer's _HANDLER is written into the reserved runtime layer and beats the reserved handler",
+ "C20-i": "error cause parsed with json.Decoder: a well-formed document followed by further bytes is accepted",
  "C04-e": "AwaitRuntimeReady of the invoke flow waits on the response gate: the invocation completes before the runtime asked for next",
  "C11-e": "a cancelled gate whose count is met returns success from AwaitGateCondition",
  "C13-e": "event validation of register only looks at the last element: an illegal event before a legal one registers a ghost / wrong error type",
